@@ -825,6 +825,71 @@ pub fn gen_history(rng: &mut Rng, kind: &DynKind, shape: &str, max_len: usize, f
 
 pub const QUERY_CALL_CAP: usize = 3000;
 
+/// Arguments whose internal ids are congruent modulo 64 (ids j and 64 + j) take turns as the attacker
+/// of one target, the swap being made inside one batch of updates: any per-argument table that is
+/// keyed or summarised modulo the word size sees "the same" attacker set.
+pub fn gen_id_alias_history(rng: &mut Rng, kind: &DynKind) -> HistCase {
+    let k = rng.range(1, 3);
+    let u = 2_000usize;
+    let l = |j: usize| 2_010 + j;
+    let m = |j: usize| 2_050 + j;
+    let t = 2_100usize;
+    let mut ops: Vec<HOp> = Vec::new();
+    let upd = |ops: &mut Vec<HOp>, op: Op<usize>| ops.push(HOp::Upd(op));
+    // ids: u = 0, l(1..=k) = 1..=k, t = k + 1
+    upd(&mut ops, Op::AddArg(u));
+    for j in 1..=k {
+        upd(&mut ops, Op::AddArg(l(j)));
+    }
+    upd(&mut ops, Op::AddArg(t));
+    // ids k + 2 ..= 64 are spent on arguments that are removed again
+    for i in 0..(63 - k) {
+        let x = 3_000 + (i % 3);
+        upd(&mut ops, Op::AddArg(x));
+        if rng.pct(10) {
+            ops.push(HOp::Query(rng.pct(50), x, rng.pct(50)));
+        }
+        upd(&mut ops, Op::DelArg(x));
+    }
+    // m(j) gets id 64 + j
+    for j in 1..=k {
+        upd(&mut ops, Op::AddArg(m(j)));
+    }
+    for j in 1..=k {
+        upd(&mut ops, Op::AddAtt(u, l(j)));
+    }
+    let query_all = |ops: &mut Vec<HOp>, rng: &mut Rng| {
+        let mut labels = vec![u, t];
+        for j in 1..=k {
+            labels.push(l(j));
+            labels.push(m(j));
+        }
+        for x in labels {
+            ops.push(HOp::Query(true, x, rng.pct(50)));
+            ops.push(HOp::Query(false, x, rng.pct(50)));
+        }
+    };
+    let j0 = rng.range(1, k);
+    upd(&mut ops, Op::AddAtt(l(j0), t));
+    query_all(&mut ops, rng);
+    for _ in 0..rng.range(2, 5) {
+        let j = rng.range(1, k);
+        // one batch: the attacker l(j) of t is replaced by m(j) (or the other way round)
+        let (from, to) = if rng.pct(50) { (l(j), m(j)) } else { (m(j), l(j)) };
+        upd(&mut ops, Op::AddAtt(from, t));
+        query_all(&mut ops, rng);
+        upd(&mut ops, Op::DelAtt(from, t));
+        upd(&mut ops, Op::AddAtt(to, t));
+        query_all(&mut ops, rng);
+        upd(&mut ops, Op::DelAtt(to, t));
+        if rng.pct(50) {
+            ops.push(HOp::Query(rng.pct(50), t, true));
+        }
+    }
+    // updates that were redundant or invalid in the model are harmless: the judge classifies each one
+    HistCase { kind: kind.clone(), shape: "id-alias-64".to_string(), ops, ctor: "factory".to_string() }
+}
+
 fn hist_hash(c: &HistCase) -> u64 {
     let mut h = Hasher64::new();
     h.str(&serde_json::to_string(&c.to_json()).unwrap());
@@ -1234,10 +1299,14 @@ pub fn run(ctx: &mut Ctx, prop: &str) {
         } else {
             *rng.pick(&[12usize, 25, 40])
         };
-        let mut case = gen_history(&mut rng, &kind, shape, max_len, fault_pct);
+        let mut case = if !matches!(kind, DynKind::Dummy(_)) && i % 100 == 37 {
+            gen_id_alias_history(&mut rng, &kind)
+        } else {
+            gen_history(&mut rng, &kind, shape, max_len, fault_pct)
+        };
         // one history in thirty starts with a warm-up: 70-150 arguments created and removed again (ids
         // beyond 64 and 128, hundreds of buffered events, retired variables) before the history proper
-        if !matches!(kind, DynKind::Dummy(_)) && rng.pct(3) {
+        if !matches!(kind, DynKind::Dummy(_)) && case.shape != "id-alias-64" && rng.pct(3) {
             let labels: Vec<usize> = (0..3).map(|k| 1_000 + k).collect();
             let mut warm: Vec<HOp> = Vec::new();
             for j in 0..rng.range(70, 150) {
